@@ -169,6 +169,11 @@ revert("canary_F9_tryeval_if_operand", ["C04"], "bnd/try=eval", "92e24e6")
 revert("canary_F10_prefix_bang", ["C15"], "bnd/c15/infix=prefix", "fdaf73b")
 revert("canary_F11_formatter_literals", ["C14"], "bnd/c14/formatter-keeps-tokens", "cf66b3b")
 revert("canary_F7b_dump_multiline", ["C13"], "bnd/redump", "511d1d0")
+# ---- C14 (token boundaries)
+mut("lexer_only_ascii_blank_separators", ["C14"], "parser.lex/inv/loop1[token-body-has-no-separator]",
+    [("parser.go", "\t\t\t\tif unicode.IsSpace(r) {\n\t\t\t\t\tif i == start {", "\t\t\t\tif r == ' ' || r == '\\t' || r == '\\n' || r == '\\r' {\n\t\t\t\t\tif i == start {")], "only blank, tab, LF, CR separate tokens")
+mut("lexer_comma_not_a_delimiter", ["C14"], "parser.lex/",
+    [("parser.go", 'if strings.ContainsRune("()[];,", r) {', 'if strings.ContainsRune("()[];", r) {')], "a comma no longer ends a token")
 
 def main():
     out = os.path.join(os.path.dirname(os.path.abspath(__file__)), "mutants")
